@@ -6,7 +6,7 @@ from hexlib import _nib
 from trie.iter import NodeIterator
 
 ID = "C10"
-LEAN_IMPORTS = ["PyTrie.Props.C10", "PyTrie.Props.RawLevel", "PyTrie.Props.NonVacuity2"]
+LEAN_IMPORTS = ["PyTrie.Props.C10", "PyTrie.Props.C10Raw", "PyTrie.Props.RawLevel", "PyTrie.Props.NonVacuity2"]
 THEOREMS = [
     "PyTrie.Props.C10.plt_nibs",
     "PyTrie.Props.C10.stored_path_is_key",
@@ -19,6 +19,8 @@ THEOREMS = [
     "PyTrie.Props.C10.nodes_preorder",
     "PyTrie.Props.C10.nodes_complete",
     "PyTrie.Props.C10.nodes_loop_is_preorder",
+    "PyTrie.Props.C10.raw_nodes_loop_refines",
+    "PyTrie.Props.C10.raw_nodes_is_preorder",
     "PyTrie.Props.Raw.next_key_refines",
     "PyTrie.Props.Raw.key_after_refines",
     "PyTrie.Props.NonVacuity2.next_key_witness",
